@@ -10,14 +10,14 @@ m = {
  "setup_cmd": "cd /verif && ./setup.sh",
  "hooks": {
   "guard": "verif",
-  "enable": "contracts are //@ comments in comment-only files zz_contracts_verif.go (//go:build verif) next to the code; govc loads the packages with -tags=verif. No executable hook code is needed for the proofs.",
+  "enable": "contracts are //@ comments in comment-only files zz_contracts_verif.go (//go:build verif) next to the code; govc loads the packages with -tags=verif. For the Python interceptor (no build tags in Python) they are #@ comments in comment-only files zz_contracts*_verif.py that are never imported. No executable hook code is needed for the proofs.",
   "baseline_off_cmd": "for m in $(cat /w/out/gomods.txt); do MF=$(cd /repo/$m && . /w/out/goenv.sh && gomodflag); (cd /repo/$m && go test $MF -json -vet=off -count=1 -timeout 25m ./...); done",
   "source_commits": hooks,
   "add_only": True
  },
  "engines": [{
   "name": "govc", "path": "/verif/govc",
-  "serves_properties": sorted(claims['checks'].keys()),
+  "serves_properties": sorted(k for k in claims['checks'].keys() if k != 'C19'),
   "kind_free_text": "contract-based deductive verifier for Go written for this task: go/packages (typed AST of /repo's working tree, tag verif) -> forward symbolic execution with state merging (= weakest-precondition VCs) against //@ contracts -> one SMT-LIB query per named obligation -> z3 / z3-new / cvc5 portfolio"
  }],
  "checks": [],
@@ -34,10 +34,10 @@ for p in props:
          "thorough_cmd": f"./check {pid} --tier thorough",
          "evidence_file": f"/verif/evidence/{pid}.json",
          "replay_cmd_template": "./replay {path}",
-         "engine": "govc",
+         "engine": "pyvc" if pid == 'C19' else "govc",
          "level_claimed": {"category": "proof", "text": c['text'], "design_ref": c.get('design_ref', f"DESIGN.md §6 {pid}")},
          "level_note": c['note'],
-         "technique": c.get('technique', "contract-based deductive verification: //@ contracts on the real Go functions, VCs generated from the typed AST, discharged by z3/cvc5")
+         "technique": c.get('technique', "contract-based deductive verification: #@ contracts on the real Python methods, VCs generated from the ast by symbolic execution, discharged by z3" if pid == 'C19' else "contract-based deductive verification: //@ contracts on the real Go functions, VCs generated from the typed AST, discharged by z3/cvc5")
         })
     else:
         m['not_applicable'].append({"property_id": pid, "reason": claims['not_applicable'].get(pid, "check not built yet (build in progress; DESIGN §9)")})
